@@ -325,10 +325,11 @@ fn parse_tuple_literal_or_parentheses(
 
             let start_idx = tokens.idx;
             exprs.push(parse_expression(tokens, id_gen, diagnostics));
-            assert!(
-                tokens.idx > start_idx,
-                "The parser should always make forward progress."
-            );
+            if tokens.idx <= start_idx {
+                // No forward progress: parse_expression has already
+                // reported the problem, so give up on this tuple.
+                break;
+            }
         }
 
         let close_paren = require_token(tokens, diagnostics, ")");
